@@ -52,7 +52,11 @@ class Check(PropertyCheck):
                   "ProxyConnectionHandler.handle_hook/server_event running on a virtual-time asyncio loop, step by step.")
     level_note = ("trusted: Lean kernel; discretisation of the clock to integer ticks (timer wake-ups are strictly after "
                   "their deadline, as on a real loop); asyncio's Event/sleep semantics are exercised, not modelled; the "
-                  "tie is differential (exhaustive short schedules + random long ones).")
+                  "tie is differential (exhaustive short schedules + random long ones); what is compared step by step is the closed / not-closed bit "
+                  "(the pending-hook count on the implementation side is the harness's own count of open hooks, not TimeoutWatchdog.blocker, so a wrong "
+                  "count shows as firing while a hook is pending / not firing after the last exit); every theorem assumes a positive timeout (the "
+                  "generator uses 1..6; tcp_timeout = 0 is outside theorems and tie); the handler-level run uses a non-Flow hook argument, so "
+                  "`await data.wait_for_resume()` inside disarm() is executed by C11's runs, not here.")
     technique = "Lean 4 proof (invariant over schedules) + virtual-time correspondence with the real watchdog/handler"
     rule = ("schedules over {activity, hook-enter, hook-exit (normal or by cancellation/exception), tick d}: all well-nested schedules up to length L on a "
             "small clock, then random schedules of length <= 40, each run at two levels (bare TimeoutWatchdog; "
